@@ -17,7 +17,7 @@ RULE = (
     'key, action key, action kind (uniform in [-1,1], bang-bang, held-constant, zero) and episode_length in {8, 60, 1000}, float32, through '
     'training.wrap(env, episode_length, 1); quick: batch 8 x 200 steps, thorough: batch 128 x 1000 steps, one lax.scan. Oracle: '
     'observation size, done = 0 at reset, action size accepted, the whole rollout repeated from the same keys is bit-identical, member 0 '
-    'is bit-identical when all other members get other keys and actions, with constant actions the second episode replays the first, an eager step of the unwrapped env evaluated twice on one State object is bit-identical, and at every step obs/reward/done/q/qd are finite, done in '
+    'is bit-identical when all other members get other keys and actions, with constant actions the second episode replays the first, an eager step of the unwrapped env evaluated twice on one State object is bit-identical, a second instance with exclude_current_positions_from_observation=False declares the size of what it returns, and at every step obs/reward/done/q/qd are finite, done in '
     '{0,1}, | |link rotation| - 1 | <= 2e-6. Non-trivial: the rollout contains a termination or truncation, or >= 200 steps with '
     '|action| > 0.5. Distinct: (env, backend, keys, action kind, episode_length).')
 ASSUMPTIONS = ['the property quantifies over all action sequences; a sampled search only covers the sequences run (stated in the evidence)',
@@ -85,6 +85,7 @@ def build(env_name, backend, ep_len, batch, nsteps):
 
 
 KINDS = ['uniform', 'bang_bang', 'held', 'zero']
+LAYOUT_KWARG = ('ant', 'halfcheetah', 'hopper', 'humanoid', 'walker2d')   # constructors with exclude_current_positions_from_observation
 
 
 def check(c, ctx=None):
@@ -164,11 +165,22 @@ def check(c, ctx=None):
       if not np.array_equal(u, v, equal_nan=True):
         raise Violation('eager_purity', f'{where}: env.step(state, action) evaluated twice (eagerly) on the same State object returns two different '
                         f'{name}: {u} vs {v}', labels={'check': 'eager_purity', 'env': c['env']})
+  # a second instance of the same class and backend with another observation layout, in the same process, after the first
+  # instance's size has been queried: each instance must declare the size of what *it* returns
+  variant = False
+  if c.get('eager') and c['env'] in LAYOUT_KWARG:
+    variant = True
+    env2 = m['envs'].get_environment(c['env'], backend=c['backend'], exclude_current_positions_from_observation=False)
+    for e_, what in ((env2, 'exclude_current_positions_from_observation=False'), (env, 'default')):
+      shp = np.asarray(jax.jit(e_.reset)(rkeys[0]).obs).shape
+      if shp != (e_.observation_size,):
+        raise Violation('observation_size', f'{where}: instance constructed with {what} (second instance of this class in the process) returns observations '
+                        f'of shape {shp} and declares observation_size {e_.observation_size}', labels={'check': 'observation_size', 'env': c['env']})
   ended = bool(o['done'].any())
   nt = ended or (c['kind'] in ('uniform', 'bang_bang') and c['nsteps'] >= 200)
   return dict(fp=fingerprint(c), nontrivial=bool(nt), evals=c['batch'] * c['nsteps'],
               labels=[f'env:{c["env"]}', f'backend:{c["backend"]}', f'kind:{c["kind"]}', f'episode_length:{c["episode_length"]}',
-                      'has_episode_end' if ended else 'no_episode_end', 'episode_replay_checked' if replayed else 'no_replay_check', 'eager_purity_checked' if eager else 'no_eager_check', 'has_truncation' if o['trunc'].any() else 'no_truncation'],
+                      'has_episode_end' if ended else 'no_episode_end', 'episode_replay_checked' if replayed else 'no_replay_check', 'eager_purity_checked' if eager else 'no_eager_check', 'layout_variant_checked' if variant else 'no_layout_variant', 'has_truncation' if o['trunc'].any() else 'no_truncation'],
               sample={k: c[k] for k in ('env', 'backend', 'kind', 'episode_length', 'batch', 'nsteps', 'reset_key', 'action_key')} |
               {'episode_ends': int(o['done'].sum()), 'truncations': int(o['trunc'].sum()), 'max_rotation_norm_error': rd})
 
